@@ -58,6 +58,7 @@ Eph(X)   == "e" \o X
 Peer(X)  == CHOOSE Y \in Honest : Y # X
 LowOrder == {"lowMin", "lowMax"}
 DataMax  == 1024         \* dataMaxSize
+AuthLen  == 103          \* length of the length-delimited AuthSigMessage (ed25519 key + signature)
 MinOf(a, b) == IF a < b THEN a ELSE b
 
 \* ---------------------------------------------------------------- symbolic crypto
@@ -194,10 +195,10 @@ ReadOp(rk, X, s, size, ib, genuine) ==
            done([s EXCEPT !.recvNonce = NextRecvNonce(s), !.last = [tam |-> tam, err |-> "none", n |-> 0]], 1)
       ELSE done([s EXCEPT !.last = [tam |-> tam, err |-> "decrypt", n |-> 0]], 1)
     ELSE
-      \* the plaintext of a handshake frame read as data: 105 bytes that are not stream bytes
+      \* the plaintext of a handshake frame read as data: AuthLen bytes that are not stream bytes
       LET src == IF f.kind = "data" THEN f.src ELSE "hs:" \o f.src
           lo  == f.lo
-          hi  == IF f.kind = "data" THEN f.hi ELSE 105
+          hi  == IF f.kind = "data" THEN f.hi ELSE AuthLen
           n   == MinOf(size, hi - lo)
       IN done([s EXCEPT !.recvNonce = NextRecvNonce(s),
                         !.buf = IF n < hi - lo THEN [src |-> src, lo |-> lo + n, hi |-> hi] ELSE NoSeg,
@@ -225,7 +226,7 @@ AuthenticatedAt(ss, X) ==
          ELSE FALSE
 AuthClass(ss, X) ==
   LET P == ss[X].remPub IN
-  IF P = X THEN "own_identity_reflected"
+  IF P = X THEN (IF ss[X].remSig.signer = X THEN "own_identity_reflected" ELSE "own_identity_without_signature")
   ELSE IF P = Attacker THEN "attacker_identity_without_its_signature"
   ELSE IF P \in Honest THEN "honest_identity_from_another_exchange"
   ELSE "identity_nobody_holds"
@@ -314,7 +315,10 @@ RecvAuth(X) ==
      \/ /\ inbox[X] = << >> /\ closed[X]
         /\ sess' = [sess EXCEPT ![X] = RecvAuthEof(sess[X])]
         /\ UNCHANGED inbox
-  /\ act' = [name |-> "RecvAuth", p |-> X]
+  \* act carries the frame consumed, so that in the act-augmented graph (replay configs, no VIEW)
+  \* "X consumed THIS frame" is a state of its own and is replayed even when the resulting
+  \* session state was already reached some other way
+  /\ act' = [name |-> "RecvAuth", p |-> X, took |-> IF inbox[X] = << >> THEN NoFrame ELSE Head(inbox[X])]
   /\ UNCHANGED <<rank, ephIn, out, closed, fwd, dirty, edits>>
 
 Write(X, size) ==
@@ -333,7 +337,8 @@ Read(X, size) ==
   /\ LET r == ReadOp(rank, X, sess[X], size, inbox[X], Genuine(X)) IN
        /\ sess' = [sess EXCEPT ![X] = r.s]
        /\ inbox' = [inbox EXCEPT ![X] = SubSeq(@, r.took + 1, Len(@))]
-  /\ act' = [name |-> "Read", p |-> X, size |-> size]
+  /\ act' = [name |-> "Read", p |-> X, size |-> size,
+             took |-> IF sess[X].buf.lo < sess[X].buf.hi \/ inbox[X] = << >> THEN NoFrame ELSE Head(inbox[X])]
   /\ UNCHANGED <<rank, ephIn, out, closed, fwd, dirty, edits>>
 
 \* ---- the attacker
